@@ -470,6 +470,14 @@ func (b *builder) txtLine(name string, wild bool, loc string) {
 	b.txtWith(name, wild, loc, txt)
 }
 
+// txtTrailing declares a TXT record whose text ends in a blank or a TAB and is the last field of its line
+// (trailing whitespace belongs to the field: nothing may strip it).
+func (b *builder) txtTrailing(name string) {
+	txt := []string{"v=spf1 -all ", "ends with a tab\t", "two blanks  "}[b.rng.Intn(3)]
+	rd := append([]byte{byte(len(txt))}, txt...)
+	b.add("'"+b.owner(name, false)+","+txt, model.Rec{Owner: name, Type: TTXT, TTL: LongTTL, Rdata: rd})
+}
+
 // txtWith declares one TXT record with the given text.
 func (b *builder) txtWith(name string, wild bool, loc string, txt string) {
 	var rd []byte
